@@ -12,7 +12,7 @@ import struct
 PROP = "C19"
 META = {
  "engine": "F-pure-functions",
- "text": "Coq theorems (Props/C19.v, closed under the global context): (1) the MIDI channel-voice encoding used for note_on/note_off/control_change/program_change/aftertouch/pitchwheel is decoded back to the same message for ALL fields in range (note, velocity, value, program 0..127, channel 0..15, pitch -8192..8191), is injective, rejects exactly the out-of-range requests, and a float argument is encoded as its truncation toward zero (Python int()); (2) the OSC 1.0 encoding (NUL-padded strings, type-tag string, big-endian int32, 4-byte float payloads) is decoded back to the same address and argument list for EVERY address and EVERY finite argument list of ints, floats and strings (induction, unbounded), hence is injective, and the device's note_on/note_off/control requests are the documented /note [note, velocity, channel] and /control [control, value, channel] forms; (3) for EVERY sequence of MPE note_on/note_off/expression calls with at most 15 notes held at once, every note_on is sent on a channel in 1..15 that no other held note uses, note_off and per-note expression go out on the note's channel, and the release frees it (invariant by induction over the call sequence); (4) for EVERY sequence of tick() runs and requests on the MIDI-file device the running sum of the written delta times puts each message at exactly the number of tick() calls that preceded its request, whatever the gap and the ticks_per_beat (exact beat arithmetic with round-half-even is the identity on tick differences), and rejected or not-implemented requests leave the timing untouched; (5) the k-th datagram of ANY history of OSC requests decodes to the k-th request and requests that differ only in the TYPE of an argument (int 2 / float 2.0 / string '2') never share a datagram. The models are tied to the repository on every run: the real MidiOutputDevice/MPEOutputDevice (fake mido port), OSCOutputDevice (loop-back UDP socket) and MidiFileOutputDevice (file read back with mido) are driven directly and through Timeline/Track.perform_event; the captured bytes are compared with the model inside Coq (vm_compute) and OSC datagrams are decoded by the Coq decoder; an independent Python oracle (status-byte table, OSC 1.0 parser, channel-uniqueness tracker) judges every result and supplies the failing input. Several devices alive in one process (IO/MultiDevice.v, the product of independent device machines): in ANY interleaving of calls to any number of devices every device produces exactly what its own call subsequence produces alone (C19_multi_noninterference, any step function), and every MPE device with well-formed own calls keeps each of ITS held notes on a channel of its own whatever the other devices hold (C19_mpe_multi); checked on every run with 2-4 MPE / MIDI-port / OSC device objects on their own fake ports and sockets, created up-front or after other devices were used, calls interleaved, each device judged on its own calls and nothing allowed on another device's port.",
+ "text": "Coq theorems (Props/C19.v, closed under the global context): (1) the MIDI channel-voice encoding used for note_on/note_off/control_change/program_change/aftertouch/pitchwheel is decoded back to the same message for ALL fields in range (note, velocity, value, program 0..127, channel 0..15, pitch -8192..8191), is injective, rejects exactly the out-of-range requests, and a float argument is encoded as its truncation toward zero (Python int()); (2) the OSC 1.0 encoding (NUL-padded strings, type-tag string, big-endian int32, 4-byte float payloads) is decoded back to the same address and argument list for EVERY address and EVERY finite argument list of ints, floats and strings (induction, unbounded), hence is injective, and the device's note_on/note_off/control requests are the documented /note [note, velocity, channel] and /control [control, value, channel] forms; (3) for EVERY sequence of MPE note_on/note_off/expression calls with at most 15 notes held at once, every note_on is sent on a channel in 1..15 that no other held note uses, note_off and per-note expression go out on the note's channel, and the release frees it (invariant by induction over the call sequence); (4) for EVERY sequence of tick() runs and requests on the MIDI-file device the running sum of the written delta times puts each message at exactly the number of tick() calls that preceded its request, whatever the gap and the ticks_per_beat (exact beat arithmetic with round-half-even is the identity on tick differences), and rejected or not-implemented requests leave the timing untouched; (5) the k-th datagram of ANY history of OSC requests decodes to the k-th request and requests that differ only in the TYPE of an argument (int 2 / float 2.0 / string '2') never share a datagram. The models are tied to the repository on every run: the real MidiOutputDevice/MPEOutputDevice (fake mido port), OSCOutputDevice (loop-back UDP socket) and MidiFileOutputDevice (file read back with mido) are driven directly and through Timeline/Track.perform_event; the captured bytes are compared with the model inside Coq (vm_compute) and OSC datagrams are decoded by the Coq decoder; an independent Python oracle (status-byte table, OSC 1.0 parser, channel-uniqueness tracker) judges every result and supplies the failing input. Several devices alive in one process (IO/MultiDevice.v, the product of independent device machines): in ANY interleaving of calls to any number of devices every device produces exactly what its own call subsequence produces alone (C19_multi_noninterference, any step function), and every MPE device with well-formed own calls keeps each of ITS held notes on a channel of its own whatever the other devices hold (C19_mpe_multi); checked on every run with 2-4 MPE / MIDI-port / OSC device objects on their own fake ports and sockets, created up-front or after other devices were used, calls interleaved, each device judged on its own calls and nothing allowed on another device's port. MPE over ALL call sequences with note identity (IO/MpeVoices.v: a sounding note is the note_on call / handle that started it): whatever pitches are struck again while held, whatever is released or not held, beyond 15 voices and with stale handles, the sounding voices keep pairwise distinct channels in 1..15, a release goes out on the released voice's channel and frees it, and a note_on is dropped only when 15 voices sound (C19_mpe_voices, _distinct, _never_starved); checked on every run on unison / doubled-chord / over-full / mixed sequences with releases through handles and through the device in any order.",
  "note": "Trusted: Coq kernel + VM; the Python harness; mido's and python-osc's serialisers and the loop-back socket are exercised on every run but not modelled beyond the byte formats; struct.pack('>f') supplies the float32 payload bytes the OSC model carries (the oracle checks them independently against the exact value). Delta times: the absolute tick of every saved message is judged (integers) for gaps up to 250 beats at resolutions 7..10080; the float arithmetic of the file device is not modelled, the closing dummy note_off is compared with the model only (trailing silence is C16's). A MIDI-file device class that does not implement control / program_change / pitch_bend itself (the pinned one inherited no-ops; repaired) is reported: the property lists these requests for the file too. Not covered: OSC int64/blob/bool arguments (bools are sent inside histories but not judged); MPE calls that press a note index that is already down, more than 15 simultaneous notes, and note_off of a note that is not down beyond 'nothing is sent'; release velocity of note_off (not fixed by the property). Requests with out-of-range fields are outside the property: the model says mido rejects them and they are compared only when the implementation rejects them too.",
 }
 HEADER = """From Isobar Require Import Base.Prelude IO.MidiBytes IO.Osc IO.Mpe IO.FileWire.
@@ -1119,6 +1119,243 @@ def gen_timeline_case(rng, device, kind):
                                          "osc_params": [[gen_osc_arg(rng) for _ in range(rng.randint(0, 5))] for _ in range(n)], "duration": 1}}
 
 
+# ---- MPE over ALL call sequences: note identity (a pitch struck again while held, releases of pitches that are not held,
+# more than 15 notes asked for, stale handles) ----------------------------------------------------------------------
+# Oracle from the property text: "every simultaneously sounding note a channel of its own and frees it on release".  A
+# sounding note is a VOICE = the note_on call that started it (the handle that call returned).  Model: IO/MpeVoices.v.
+def mpev_oracle(seq, res):
+    """-> list of (index, what, detail): the first offence of each kind.  After an offence the oracle goes on with what
+    is on the wire (a voice whose release was not sent is still sounding)."""
+    sounding = {}            # voice id -> (pitch, channel)
+    shadowed = set()         # voices whose pitch was struck again while they sounded
+    bad, seen = [], set()
+    nons = 0
+
+    def report(i, what, detail):
+        if what not in seen:
+            seen.add(what)
+            bad.append((i, what, detail))
+
+    for i, (c, r) in enumerate(zip(seq, res)):
+        k, sent = c[0], r["sent"]
+        if k == 0:
+            vid, nons = nons, nons + 1
+            n, v = c[1], c[2]
+            if len(sounding) >= 15:
+                if sent:                       # outside the quantifier (up to 15 held); but nothing may land on a sounding note
+                    b = sent[0]
+                    clash = [w for w, (p, ch) in sounding.items() if len(b) == 3 and ch == (b[0] & 0x0F)]
+                    if clash:
+                        report(i, "note-on-on-occupied-channel", "note_on(%d, %d) with 15 voices sounding went out on channel %d, where voice %d (pitch %d) sounds"
+                               % (n, v, b[0] & 0x0F, clash[0], sounding[clash[0]][0]))
+                continue
+            if r["none"] or r["raise"] or not sent:
+                report(i, "note-on-dropped", "note_on(%d, %d) with %d voices sounding sent nothing (returned None: %s, raised: %s)" % (n, v, len(sounding), r["none"], r["raise"]))
+                continue
+            b = sent[0]
+            if len(sent) != 1 or len(b) != 3 or b[0] & 0xF0 != 0x90 or b[1:] != [n, v]:
+                report(i, "note-on-wrong-message", "note_on(%d, %d) sent %r" % (n, v, sent))
+                continue
+            ch = b[0] & 0x0F
+            if not 1 <= ch <= 15:
+                report(i, "note-on-wrong-message", "note_on(%d) went out on channel %d (member channels are 1..15)" % (n, ch))
+            clash = [w for w, (p, wc) in sounding.items() if wc == ch]
+            if clash:
+                report(i, "note-on-on-occupied-channel", "note_on(%d, %d) (voice %d) was given channel %d, on which voice %d (pitch %d, struck by call %s and not released) is sounding"
+                       % (n, v, vid, ch, clash[0], sounding[clash[0]][0], [j for j, cc in enumerate(seq[:i]) if cc[0] == 0][clash[0]]))
+            if r["chan"] is not None and r["chan"] != ch:
+                report(i, "note-on-wrong-message", "the returned MPENote says channel %r, the message went out on %d" % (r["chan"], ch))
+            for w, (p, wc) in sounding.items():
+                if p == n:
+                    shadowed.add(w)
+            sounding[vid] = (n, ch)
+        elif k == 1:
+            n = c[1]
+            cands = [w for w, (p, ch) in sounding.items() if p == n]
+            if not cands:
+                if sent:
+                    report(i, "release-of-silent-pitch-sends", "note_off(%d) while no voice of that pitch sounds sent %r" % (n, sent))
+                continue
+            ok = [w for w in cands if r["raise"] is None and len(sent) == 1 and bytes_match([0x80 | sounding[w][1], n, None], sent[0])]
+            if not ok:
+                restruck = any(w in shadowed for w in cands) or len(cands) > 1
+                report(i, "release-misdirected-after-restrike" if restruck else "release-wrong",
+                       "device.note_off(%d): voices %r of that pitch sound on channels %r; sent %r (raised: %s)" % (n, cands, [sounding[w][1] for w in cands], sent, r["raise"]))
+                # what is on the wire: a note_off of this pitch on some channel silences the voice there, if any
+                for b in sent:
+                    for w, (p, ch) in list(sounding.items()):
+                        if len(b) == 3 and b[0] == (0x80 | ch) and b[1] == p:
+                            del sounding[w]; shadowed.discard(w)
+                continue
+            del sounding[ok[-1]]; shadowed.discard(ok[-1])
+        else:
+            vid = c[1]
+            if vid not in sounding:
+                if sent and k != 5:
+                    report(i, "expression-after-release", "expression call %r on a voice that does not sound sent %r" % (c, sent))
+                elif sent and k == 5:
+                    # a stale handle released something: which voice did it silence?
+                    hit = [w for w, (p, ch) in sounding.items() for b in sent if len(b) == 3 and b[0] == (0x80 | ch) and b[1] == p]
+                    report(i, "release-misdirected-after-restrike" if hit and any(w in shadowed or sounding[w][0] in [sounding[x][0] for x in sounding if x != w] for w in hit) else "stale-handle-sends",
+                           "handle %d .note_off() (its voice does not sound) sent %r" % (vid, sent))
+                    for w in hit:
+                        del sounding[w]; shadowed.discard(w)
+                continue
+            p, ch = sounding[vid]
+            if k == 5:
+                if r["raise"] is None and len(sent) == 1 and bytes_match([0x80 | ch, p, None], sent[0]):
+                    del sounding[vid]; shadowed.discard(vid)
+                    continue
+                same = [w for w, (pp, _) in sounding.items() if pp == p and w != vid]
+                restruck = vid in shadowed or bool(same)
+                report(i, "release-misdirected-after-restrike" if restruck else "release-wrong",
+                       "handle %d .note_off(): its voice (pitch %d) sounds on channel %d%s; sent %r (raised: %s)" % (
+                           vid, p, ch, (", the pitch was struck again (voices %r) while it sounded" % same) if restruck else "", sent, r["raise"]))
+                for b in sent:
+                    for w, (pp, wc) in list(sounding.items()):
+                        if len(b) == 3 and b[0] == (0x80 | wc) and b[1] == pp:
+                            del sounding[w]; shadowed.discard(w)
+                continue
+            if k == 2:
+                x = c[2] + 8192
+                exp = [0xE0 | ch, x & 0x7F, x >> 7]
+            elif k == 3:
+                exp = [0xD0 | ch, c[2]]
+            else:
+                exp = [0xB0 | ch, c[2], c[3]]
+            if r["raise"] or len(sent) != 1 or not bytes_match(exp, sent[0]):
+                same = [w for w, (pp, _) in sounding.items() if pp == p and w != vid]
+                report(i, "expression-wrong" if not (vid in shadowed or same) else "expression-lost-after-restrike",
+                       "expression call %r for voice %d (pitch %d, channel %d) sent %r (raised: %s)" % (c, vid, p, ch, sent, r["raise"]))
+    return bad
+
+
+def mpev_snippet(seq):
+    lines = ["import mido", "class P:", "    name='fake'", "    def send(self, m): print('  ', m)",
+             "mido.open_output = lambda *a, **k: P()", "from isobar.io.mpe.output import MPEOutputDevice",
+             "d = MPEOutputDevice('fake'); h = []", "def t(f, *a):", "    try: return f(*a)", "    except Exception as e: print('   raises', type(e).__name__, e)"]
+    for c in seq:
+        k = c[0]
+        if k == 0:
+            lines.append("print('note_on(%d, %d) -> handle', len(h)); h.append(t(d.note_on, %d, %d))" % (c[1], c[2], c[1], c[2]))
+        elif k == 1:
+            lines.append("print('device.note_off(%d)'); t(d.note_off, %d)" % (c[1], c[1]))
+        else:
+            m = {5: "note_off", 2: "pitch_bend", 3: "aftertouch", 4: "control"}[k]
+            lines.append("print('handle %d .%s%r'); h[%d] is not None and t(h[%d].%s, %s)" % (c[1], m, tuple(c[2:]), c[1], c[1], m, ", ".join(str(x) for x in c[2:])))
+    return "\n".join(lines)
+
+
+KNOWN_WHATS = ("release-misdirected-after-restrike",)
+
+
+def judge_mpev(run, seqs, results):
+    terms, meta = [], []
+    for seq, res in zip(seqs, results):
+        run.count(len(seq))
+        run.cov["oracle_evaluations"] += len(seq)
+        run.nontrivial("mpev " + json.dumps(seq))
+        run.dist("mpev.sequences")
+        run.dist("mpev.calls", len(seq))
+        # strata actually reached by this sequence
+        snd, nons, marks = {}, 0, set()
+        for c in seq:
+            if c[0] == 0:
+                if len(snd) >= 15:
+                    marks.add("note_on with 15 voices sounding")
+                else:
+                    if c[1] in snd.values():
+                        marks.add("pitch struck again while held")
+                    snd[nons] = c[1]
+                    if "pitch struck again while held" in marks and len(set(snd.values())) < len(snd):
+                        marks.add("... then a further note_on before a release")
+                nons += 1
+            elif c[0] == 1:
+                ws = [w for w, p in snd.items() if p == c[1]]
+                if not ws:
+                    marks.add("device.note_off of a pitch that is not held")
+                else:
+                    if len(ws) > 1:
+                        marks.add("device.note_off of a doubled pitch")
+                    del snd[ws[-1]]
+            elif c[0] == 5:
+                if c[1] in snd:
+                    if sum(1 for p in snd.values() if p == snd[c[1]]) > 1:
+                        marks.add("handle release of one voice of a doubled pitch")
+                    del snd[c[1]]
+                else:
+                    marks.add("stale handle")
+        for mk in marks:
+            run.dist("mpev." + mk)
+        bad = mpev_oracle(seq, res)
+        first_bad = min([b[0] for b in bad], default=len(seq))
+        for i, what, detail in bad:
+            small = seq[:i + 1]
+            run.violation({"kind": "mpe-voices", "site": "MPEOutputDevice", "what": what}, {
+                "case": {"stratum": "mpev", "payload": small},
+                "expected": "every simultaneously sounding note (voice = one note_on call / one MPENote handle) on a channel of its own in 1..15; "
+                            "a release goes out on the released voice's channel and frees it; the same pitch may be held by several voices",
+                "observed": {"failing_call_index": i, "call": seq[i], "detail": detail, "wire_of_last_calls": [r["sent"] for r in res[max(0, i - 4):i + 1]]},
+                "oracle": "voice tracker (note identity)", "python": mpev_snippet(small if len(small) <= 60 else small[-60:])})
+        # the model is compared on the calls before the first offence (afterwards the wire has diverged from what is demanded)
+        cut = first_bad
+        terms.append("voices_agree %s %s" % (zll(seq[:cut]), lst([zll(r["sent"]) for r in res[:cut]])))
+        meta.append((seq[:cut], res[:cut]))
+        run.sample({"device": "MPEOutputDevice", "calls(first 8) [0 on,1 device off,5 handle off,2 bend,3 touch,4 ctl; handles by note_on index]": seq[:8],
+                    "wire(first 8)": [r["sent"] for r in res[:8]]}, limit=3)
+    failing = run.coq_failing(HEADER_VOICES, terms, chunk=4, jobs=12)
+    run.cov["traces_validated_against_impl"] += sum(len(meta[i][0]) for i in range(len(terms)) if i not in failing)
+    for i in failing:
+        seq, res = meta[i]
+        at = run.coq_eval(HEADER_VOICES, "voices_first_diff %s %s" % (zll(seq), lst([zll(r["sent"]) for r in res])))
+        run.violation({"kind": "correspondence", "site": "MPEOutputDevice(voices)"}, {
+            "broken": "correspondence model/implementation on the MPE allocator with note identity (IO/MpeVoices.v; C19_mpe_voices* no longer speak about this code)",
+            "case": {"stratum": "mpev", "payload": seq}, "first_differing_call": at, "python": mpev_snippet(seq[:60])}, found_input=False)
+
+
+def gen_mpev_seq(rng, length, shape):
+    """legal call sequences that are NOT well-formed in the sense of mpe_wf: pitches struck again while held, releases of
+    pitches that are not held, note_ons beyond 15 voices, stale handles.  shape: 'unison' (few pitches, many re-strikes),
+    'chords' (doubled chord notes), 'full' (pushes beyond 15 voices), 'mixed'."""
+    seq, snd, nons = [], {}, 0            # snd: voice id -> pitch
+    released = []
+    pool = {"unison": [60, 60, 60, 64, 67], "chords": [48, 55, 60, 62, 64, 67, 72], "full": list(range(30, 100)),
+            "mixed": [rng.randint(0, 127) for _ in range(6)]}[shape]
+    cap = {"unison": rng.choice([3, 6, 15]), "chords": rng.choice([6, 10, 15]), "full": 18, "mixed": rng.choice([4, 15, 17])}[shape]
+    while len(seq) < length:
+        x = rng.random()
+        fill = len(snd) / cap
+        if (x < 0.5 - 0.3 * fill or not snd) and len(snd) < cap:
+            if shape == "chords" and rng.random() < 0.5:
+                ps = rng.sample(pool, rng.randint(2, 4))
+                ps.append(rng.choice(ps))                       # the doubled note
+            else:
+                ps = [rng.choice(pool)]
+            for p in ps:
+                seq.append([0, p, rng.randint(1, 127)])
+                if len(snd) < 15:
+                    snd[nons] = p
+                nons += 1
+        elif x < 0.62 and snd:                                   # device.note_off of a pitch (most recent voice of it)
+            p = rng.choice(list(snd.values()))
+            w = [v for v, q in snd.items() if q == p][-1]
+            seq.append([1, p]); del snd[w]; released.append(w)
+        elif x < 0.80 and snd:                                   # release through a handle, in any order
+            w = rng.choice(list(snd))
+            seq.append([5, w]); del snd[w]; released.append(w)
+        elif x < 0.84:                                           # a pitch that is not held
+            p = rng.choice([q for q in range(128) if q not in snd.values()])
+            seq.append([1, p])
+        elif x < 0.88 and released:                              # a stale handle
+            kk, w = rng.choice([5, 2, 3]), rng.choice(released)
+            seq.append([5, w] if kk == 5 else [kk, w, rng.randint(0, 127)])
+        elif snd or released:
+            w = rng.choice(list(snd) if snd and (rng.random() < 0.85 or not released) else released)
+            kk = rng.choice([2, 3, 4])
+            seq.append([2, w, rng.randint(-8192, 8191)] if kk == 2 else [3, w, rng.randint(0, 127)] if kk == 3 else [4, w, rng.choice([74, 1, 11]), rng.randint(0, 127)])
+    return seq[:length]
+
+
 # ---- several device objects alive in one process, interleaved calls -----------------------------------------------
 # The dimension: the state of a device object must be ITS state.  k devices (MPE / MIDI port / OSC, each on its own fake
 # port or socket) created up-front or lazily (after other devices have been used, even dropped with notes held), calls
@@ -1126,6 +1363,7 @@ def gen_timeline_case(rng, device, kind):
 # IO/MultiDevice.v, the product of independent machines, C19_multi_noninterference / C19_mpe_multi), plus: nothing may
 # reach the port or socket of another device.
 HEADER_MULTI = HEADER + "From Isobar Require Import IO.MultiDevice.\n"
+HEADER_VOICES = HEADER + "From Isobar Require Import IO.MpeVoices.\n"
 DEVCLASS = {"mpe": "MPEOutputDevice", "midi": "MidiOutputDevice", "osc": "OSCOutputDevice"}
 
 
@@ -1332,7 +1570,7 @@ def gen_multi_case(rng, i):
 
 # ---- running the strata --------------------------------------------------------------------------------------
 JUDGES = {"midi": judge_midi, "osc": judge_osc, "osch": judge_osch, "mpe": judge_mpe, "file": judge_file, "timeline": judge_timeline,
-          "multi": judge_multi}
+          "multi": judge_multi, "mpev": judge_mpev}
 
 
 def run_stratum(run, name, cases, shards=10):
@@ -1427,6 +1665,15 @@ def check(run):
     seqs += [gen_mpe_seq(rng, ln, cap) for ln, cap in shapes]
     seqs += [gen_mpe_seq(rng, 150, rng.choice([3, 15]), malformed=True) for _ in range(3 if quick else 12)]
     run_stratum(run, "mpe", seqs, shards=12)
+    # 3a. ALL call sequences (note identity): the same pitch struck again while held (unison, doubled chord note), release of
+    #     a pitch that is not held, more than 15 voices asked for, stale handles, releases in any order through handle or device
+    vseqs = [[[0, 60, 100], [0, 60, 90], [0, 64, 80], [2, 0, 100], [2, 1, -100], [0, 67, 70], [0, 65, 60]],
+             [[0, 48, 100], [0, 55, 100], [0, 60, 100], [0, 55, 100], [0, 62, 100], [0, 64, 100], [4, 1, 74, 10], [4, 3, 74, 90]],
+             [[0, n, 64] for n in range(40, 57)] + [[2, 15, 5], [1, 47], [0, 99, 1], [1, 100]]]
+    vshapes = [("unison", 40), ("unison", 120), ("chords", 80), ("chords", 200), ("full", 150), ("mixed", 100), ("mixed", 300), ("unison", 300),
+               ("chords", 60), ("full", 60), ("mixed", 40), ("unison", 25)] * (1 if quick else 8)
+    vseqs += [gen_mpev_seq(rng, ln, sh) for sh, ln in vshapes]
+    run_stratum(run, "mpev", vseqs, shards=8)
     # 3b. several devices alive in one process (MPE / MIDI port / OSC), created up-front or lazily, interleaved calls:
     #     every device judged on its own call subsequence (non-interference), nothing on another device's port
     fixed_multi = [{"devs": ["mpe", "mpe"], "lazy": False, "stratum": "mpe+mpe", "calls":
